@@ -633,7 +633,7 @@ func workerMain(st Stream, from, to int, progressPath, resultPath string, budget
 				nTie++
 			}
 		}
-		if prattTie && strings.ContainsAny(src, "{") || prattTie && st.Name() == "infix" {
+		if prattTie && (strings.Contains(src, "{") || strings.Contains(src, "infix")) || prattTie && st.Name() == "infix" {
 			setProgress(i, nEntries)
 			for _, sc := range w.prattObserve(src, st.Name() == "infix") {
 				fmt.Fprintf(res, "C\t%d\t%s\t%s\n", i, sc[0], sc[1])
